@@ -145,6 +145,8 @@ def coqc_file(path, timeout=900, extra_R=()):
     for d, name in extra_R:
         cmd += ["-R", d, name]
     cmd.append(path)
+    import shlex
+    cmd = ["bash", "-c", "ulimit -s unlimited 2>/dev/null || ulimit -s 1000000 2>/dev/null; exec " + " ".join(shlex.quote(c) for c in cmd)]
     try:
         r = subprocess.run(cmd, capture_output=True, text=True, timeout=timeout,
                            cwd=os.path.dirname(path))
